@@ -245,6 +245,18 @@ class World:
             except FileNotFoundError:
                 pass
 
+    def touch_images(self, seconds=5):
+        """same bytes, newer modification time (local back-ends)"""
+        with quiet():
+            import time as _t
+
+            now = _t.time() + seconds
+            for name in self.product.images:
+                try:
+                    os.utime(self.file_path(name), (now, now))
+                except OSError:
+                    pass
+
     def listing(self):
         """{name: sha256} of everything in the product directory"""
         out = {}
